@@ -66,6 +66,7 @@ type Contract struct {
 	Line     int
 	Covers   bool
 	Replay   string
+	Ghosts   []SpecParam
 }
 
 type SplitSpec struct {
@@ -115,7 +116,7 @@ var (
 var clauseKeywords = map[string]bool{
 	"prop": true, "mode": true, "requires": true, "ensures": true, "panics-iff": true, "may-panic": true,
 	"invariant": true, "decreases": true, "unroll": true, "modifies": true, "let": true, "trusted": true,
-	"abstract": true, "inline": true, "split": true, "assert": true, "replay": true, "no-panic": true,
+	"abstract": true, "inline": true, "split": true, "assert": true, "replay": true, "no-panic": true, "ghost": true,
 }
 
 // qualify turns a contract-file function key into the ssa full name.
@@ -315,6 +316,12 @@ func (cs *ContractStore) addClause(c *Contract, kw, rest, where string) error {
 		c.Abstract = true
 	case "inline":
 		c.Inline = true
+	case "ghost":
+		parts := strings.Fields(rest)
+		if len(parts) != 2 {
+			return fmt.Errorf("%s: ghost needs name and type", where)
+		}
+		c.Ghosts = append(c.Ghosts, SpecParam{parts[0], parts[1]})
 	case "may-panic":
 		c.MayPanic = true
 	case "no-panic":
